@@ -192,7 +192,7 @@ class Dataset:
         if not el["mode_gamma"]:
             del el["mode_gamma"]
         if self.system:
-            el["symmetry"] = {"system": self.system}
+            el["symmetry"] = {"system": self.system, **getattr(self, "symmetry_flags", {})}
         return {"qha": {"input": "input01", "settings": copy.deepcopy(self.settings)},
                 "elast": {"input": "elast.dat", "settings": el},
                 "output": copy.deepcopy(getattr(self, "output", None)) or {"pressure_base": ["cij", "bm_VRH", "G_VRH", "v", "vs", "vp"], "volume_base": ["p"]}}
